@@ -6,7 +6,8 @@ import XalanModel.C14.Engine
   stylesheet's namespaces stack (256-313), `processExcludeResultPrefixes(value, stack)` (398-448),
   `postConstruction` (501-540) = `copyExcludeResultPrefixes` (890) + `processExcludeResultPrefixes(prefix,
   checker)` (745-785), `getNamespace` (333-347: excluded prefixes first, then declarations).
-  Namespace aliases and extension namespaces are not modelled (generated stylesheets have none).
+  Namespace aliases: `setNamespaceAlias`, `copyNamespaceAliases`, `processNamespaceAliases`; extension namespaces
+  are not modelled (generated stylesheets have none).
 * `exec` interprets a tree of result-constructing instructions the way the element classes drive the
   engine (`ElemLiteralResult`, `ElemElement`, `ElemAttribute`, `ElemCopyOf` on an element node,
   `xsl:for-each`/`xsl:copy` on an element node).
@@ -18,6 +19,7 @@ def xsltURI : String := "http://www.w3.org/1999/XSL/Transform"
 structure Handler where
   excluded : List NS := []     -- m_excludedResultPrefixes (vector order)
   decls : List NS := []        -- m_namespaceDeclarations (vector order)
+  aliases : List (String × String) := []   -- m_namespaceAliases: stylesheet URI ↦ result URI
 deriving Repr, DecidableEq
 
 def addByPrefix (v : List NS) (p u : String) : List NS :=
@@ -62,14 +64,37 @@ def Handler.processExcluded (h : Handler) (elemPrefix : String) (active : List S
   else
     let moved := h.decls.filter (fun n => n.pfx ≠ elemPrefix && !active.contains n.pfx && h.isExcludedURI n.uri)
     let kept := h.decls.filter (fun n => !(n.pfx ≠ elemPrefix && !active.contains n.pfx && h.isExcludedURI n.uri))
-    { excluded := h.excluded ++ moved, decls := kept }
+    { h with excluded := h.excluded ++ moved, decls := kept }
 
+/-- `getNamespaceAlias` -/
+def Handler.aliasOf (h : Handler) (u : String) : Option String :=
+  (h.aliases.find? (fun a => a.1 = u)).map (·.2)
+
+/-- `setNamespaceAlias` (a map: a later alias for the same stylesheet URI replaces the earlier one) -/
+def setAlias : List (String × String) → String → String → List (String × String)
+  | [], k, v => [(k, v)]
+  | a :: as, k, v => if a.1 = k then (k, v) :: as else a :: setAlias as k v
+
+/-- `copyNamespaceAliases` (`map::insert`: existing keys are kept) -/
+def Handler.copyAliases (h : Handler) (parent : List (String × String)) : Handler :=
+  if parent.isEmpty then h
+  else if h.aliases.isEmpty then { h with aliases := parent }
+  else { h with aliases := parent.foldl (fun e a => if e.any (fun b => b.1 = a.1) then e else e ++ [a]) h.aliases }
+
+/-- `processNamespaceAliases` (790-820): every declaration whose URI has an alias gets the result URI -/
+def Handler.processAliases (h : Handler) : Handler :=
+  { h with decls := h.decls.map (fun n => match h.aliasOf n.uri with
+      | some a => ⟨n.pfx, a⟩
+      | none => n) }
+
+/-- `postConstruction` (501-540); `aliasing` = `fProcessNamespaceAliases` (false only for xsl:element) -/
 def Handler.postConstruct (h : Handler) (parent : Option Handler) (elemPrefix : String)
-    (active : List String) : Handler :=
+    (active : List String) (aliasing : Bool := true) : Handler :=
   let h := match parent with
-    | some p => h.copyExcluded p.excluded
+    | some p => (h.copyAliases p.aliases).copyExcluded p.excluded
     | none => h
-  h.processExcluded elemPrefix active
+  let h := h.processExcluded elemPrefix active
+  if aliasing then h.processAliases else h
 
 def Handler.getNamespace (h : Handler) (p : String) : Option String :=
   match h.excluded.find? (fun n => n.pfx = p) with
@@ -120,8 +145,8 @@ def cloneList (chain : List (List Att)) (s : St) : List Src → St
   | k :: ks => cloneList chain (cloneTree chain s k) ks
 end
 
-def elementHandler (env : Env) : Handler :=
-  (Handler.ctor ([] :: env.stack)).postConstruct (some env.parent) "xsl" []
+def elementHandler (env : Env) (aliasing : Bool := true) : Handler :=
+  (Handler.ctor ([] :: env.stack)).postConstruct (some env.parent) "xsl" [] aliasing
 
 mutual
 /-- one instruction; `execList … skipAttrs` is `ElemElement::executeChildElement` (the children of an
@@ -129,12 +154,12 @@ mutual
 def exec (env : Env) (r : Run) : Instr → Run
   | .text => { r with st := r.st.characters }
   | .attribute name ns value =>
-    let h := elementHandler env
+    let h := elementHandler env (!r.st.v.attrNoAlias)
     let ssNs := if name.pfx = "xml" then some xmlURI else h.getNamespace name.pfx
     let sb := r.st.elemAttribute name ns ssNs value
     { r with st := sb.1, tags := ("A:" ++ reprStr sb.2) :: r.tags }
   | .element name ns body =>
-    let h := elementHandler env
+    let h := elementHandler env false      -- ElemElement::namespacesPostConstruction: no aliasing
     let seb := r.st.elemElementStart name ns (h.getNamespace name.pfx) (h.getNamespace "")
         ((env.parent.getNamespace "").getD "")
     let r := { r with st := seb.1, tags := ("E:" ++ reprStr seb.2.2) :: r.tags }
@@ -183,12 +208,24 @@ def execList (env : Env) (r : Run) (skipAttrs : Bool) : List Instr → Run
   | i :: is => execList env (exec env r i) skipAttrs is
 end
 
+/-- `Stylesheet::processNSAliasElement` for each `xsl:namespace-alias` (prefix pairs, `""` = `#default`);
+`none` = a prefix is not declared on xsl:stylesheet (compile error) -/
+def resolveAliases (rootDecls : List NS) : List (String × String) → Option (List (String × String))
+  | [] => some []
+  | (sp, rp) :: rest =>
+    match stackLookup [rootDecls] sp, stackLookup [rootDecls] rp, resolveAliases rootDecls rest with
+    | some su, some ru, some tail => some ((su, ru) :: tail)
+    | _, _, _ => none
+
 /-- a whole generated stylesheet: `<xsl:stylesheet rootDecls exclude-result-prefixes=rootExcl>
 <xsl:template match="/"> body </xsl:template></xsl:stylesheet>` applied to `src` -/
-def runCase (v : Variant) (rootDecls : List NS) (rootExcl : List String) (src : Src) (body : List Instr) : Run :=
-  match ({} : Handler).excludeTokens [rootDecls] rootExcl with
-  | none => { st := { v := v }, bad := true }
-  | some sh0 =>
+def runCase (v : Variant) (rootDecls : List NS) (rootExcl : List String) (aliasPrefixes : List (String × String))
+    (src : Src) (body : List Instr) : Run :=
+  match ({} : Handler).excludeTokens [rootDecls] rootExcl, resolveAliases rootDecls aliasPrefixes with
+  | none, _ => { st := { v := v }, bad := true }
+  | _, none => { st := { v := v }, bad := true }
+  | some sh00, some al =>
+    let sh0 : Handler := { sh00 with aliases := al.foldl (fun m a => setAlias m a.1 a.2) [] }
     let sh := sh0.postConstruct none "" []
     let stack := [[], rootDecls]
     let th := (Handler.ctor stack).postConstruct (some sh) "xsl" []
